@@ -7,6 +7,8 @@ Import ListNotations.
 Close Scope string_scope.
 Open Scope list_scope.
 
+Definition t_text (s : string) : list N := C20Proofs.t s.
+
 (** * The documented grammar speaks about the lexer's tokens: every quoted literal of syntax.md / the rule
       comments is lexed by the lexer model as exactly one token, of the kind used in the generated grammar *)
 Definition literal_ok_b (lk : list N * TokenKind) : bool :=
@@ -20,3 +22,27 @@ Proof.
   destruct (lex_single l) as [k'|] eqn:S; try discriminate.
   apply tk_eqb_eq in F. subst. now apply lex_single_sound.
 Qed.
+
+(** * Zero errors => sentence (soundness direction, for ALL texts) *)
+From TG.Model Require Import GramAbs GramCert.
+From TG.Proofs Require Import GramRx GramSound.
+
+(** the reflective obligation: re-evaluated whenever the grammar program, the documents or the certificate change *)
+Lemma check_doc_sound_grammar :
+  check_all doc_rules_sound grammar_prog grammar_cert check_fuel grammar_entry doc_start = true.
+Proof. vm_compute. reflexivity. Qed.
+
+Lemma C04_errors_or_sentence_proof :
+  forall fuel txt t st, parse_with fuel grammar_prog grammar_entry txt = ParseOk t [] st ->
+  exists u : list TokenKind, derives doc_rules_sound doc_start u /\ map sk_of_tk u = filter nontriv (tkinds t).
+Proof. exact (check_all_sound _ _ _ _ _ _ check_doc_sound_grammar). Qed.
+
+(** the check really discriminates: against the documents WITHOUT the known accept-deltas it fails *)
+Lemma check_doc_trail_fails :
+  check_all doc_rules_trail grammar_prog grammar_cert check_fuel grammar_entry doc_start = false.
+Proof. vm_compute. reflexivity. Qed.
+
+(** non-vacuity: a text that parses with zero errors *)
+Example zero_error_parse_exists :
+  exists t st, parse_with 4000 grammar_prog grammar_entry (t_text "class A<int x> : B<1> { let y = [1, 2]; }"%string) = ParseOk t [] st.
+Proof. vm_compute. eexists. eexists. reflexivity. Qed.
